@@ -54,7 +54,8 @@ func (c *chunkConn) Read(p []byte) (int, error) {
 type chunkListener struct {
 	net.Listener
 	chunk, truncate int
-	head            []byte
+	mu              sync.Mutex
+	heads           []*[]byte // one per accepted connection
 }
 
 func (l *chunkListener) Accept() (net.Conn, error) {
@@ -62,7 +63,28 @@ func (l *chunkListener) Accept() (net.Conn, error) {
 	if err != nil {
 		return nil, err
 	}
-	return &chunkConn{Conn: c, chunk: l.chunk, truncate: l.truncate, head: &l.head}, nil
+	h := new([]byte)
+	l.mu.Lock()
+	l.heads = append(l.heads, h)
+	tr := l.truncate
+	l.mu.Unlock()
+	return &chunkConn{Conn: c, chunk: l.chunk, truncate: tr, head: h}, nil
+}
+
+// lastHead returns the first bytes of the most recently accepted connection.
+func (l *chunkListener) lastHead() []byte {
+	l.mu.Lock()
+	defer l.mu.Unlock()
+	if len(l.heads) == 0 {
+		return nil
+	}
+	return *l.heads[len(l.heads)-1]
+}
+
+func (l *chunkListener) setTruncate(n int) {
+	l.mu.Lock()
+	l.truncate = n
+	l.mu.Unlock()
 }
 
 type c16Cfg struct {
@@ -78,6 +100,10 @@ type c16Cfg struct {
 	// UnknownLength: the request body is a plain io.Reader, so an uncompressed request goes out chunked, without
 	// Content-Length
 	UnknownLength bool `json:"body_of_unknown_length"`
+	// Prelude: an earlier request through the same client and server (other body, possibly cut mid-stream) that leaves
+	// pooled encoders / decoders in a used state; only the second request is judged
+	Prelude    int `json:"prelude_request_body_len,omitempty"`
+	PreludeCut int `json:"prelude_truncate_stream_after,omitempty"`
 }
 
 func makeBody(tp *simkit.Tape, kind string, n int) []byte {
@@ -166,6 +192,12 @@ func runC16(r *simkit.Run) {
 		cfg.Truncate = tp.Range(1, 400+cfg.BodyLen/2)
 	}
 	cfg.UnknownLength = tp.Chance(1, 3)
+	if tp.Chance(1, 3) {
+		cfg.Prelude = []int{1, 700, 5000, 70000, 140000}[tp.Draw(5)]
+		if tp.Chance(1, 3) {
+			cfg.PreludeCut = tp.Range(150, 300+cfg.Prelude/3)
+		}
+	}
 	cfg.HandlerBuf = []int{1, 3, 512, 32768}[tp.Draw(4)]
 	if cfg.BodyLen > 100000 && cfg.HandlerBuf < 512 {
 		cfg.HandlerBuf = 512
@@ -179,25 +211,37 @@ func runC16(r *simkit.Run) {
 	var readErr error
 	handlerRan := false
 	sawEncoding := ""
+	var hmu sync.Mutex
+	epoch := 0
 	handler := http.HandlerFunc(func(w http.ResponseWriter, req *http.Request) {
+		hmu.Lock()
+		my := epoch
 		handlerRan = true
 		sawEncoding = req.Header.Get("Content-Encoding")
+		hmu.Unlock()
 		buf := make([]byte, cfg.HandlerBuf)
+		var mine []byte
+		var myErr error
 		for {
 			n, err := req.Body.Read(buf)
-			got = append(got, buf[:n]...)
+			mine = append(mine, buf[:n]...)
 			if err != nil {
 				if err != io.EOF {
-					readErr = err
+					myErr = err
 				}
 				break
 			}
-			if len(got) > int(limit)+(1<<20) {
+			if len(mine) > int(limit)+(1<<20) {
 				break // far beyond the limit already: stop reading, the oracle will complain
 			}
 		}
-		if readErr != nil {
-			http.Error(w, readErr.Error(), http.StatusBadRequest)
+		hmu.Lock()
+		if my == epoch {
+			got, readErr = mine, myErr
+		}
+		hmu.Unlock()
+		if myErr != nil {
+			http.Error(w, myErr.Error(), http.StatusBadRequest)
 			return
 		}
 		w.WriteHeader(http.StatusOK)
@@ -250,6 +294,24 @@ func runC16(r *simkit.Run) {
 		panic(err)
 	}
 	defer client.CloseIdleConnections()
+	if cfg.Prelude > 0 {
+		r.Count("probe.prelude_request")
+		cl.setTruncate(cfg.PreludeCut)
+		pre := makeBody(tp, []string{"text", "random"}[tp.Draw(2)], cfg.Prelude)
+		if resp, err := client.Post(cc.Endpoint+"/", "application/octet-stream", bytes.NewReader(pre)); err == nil {
+			_, _ = io.Copy(io.Discard, resp.Body)
+			_ = resp.Body.Close()
+		}
+		// the handler of the prelude may still be running when the client gives up on a cut stream: wait for the
+		// server to be idle by asking it for one trivial exchange? (not needed: every connection is closed after its
+		// response and the handler state below is reset under the same mutex the handler uses)
+		time.Sleep(20 * time.Millisecond)
+		hmu.Lock()
+		got, readErr, handlerRan, sawEncoding = nil, nil, false, ""
+		epoch++
+		hmu.Unlock()
+		cl.setTruncate(cfg.Truncate)
+	}
 	r.Events++
 	simkit.Beat()
 	var rd io.Reader = bytes.NewReader(body)
@@ -328,7 +390,7 @@ func runC16(r *simkit.Run) {
 	}
 	// size of the body as it travelled (compressed), from the Content-Length the client sent
 	wire := int64(-1)
-	for _, line := range strings.Split(string(cl.head), "\r\n") {
+	for _, line := range strings.Split(string(cl.lastHead()), "\r\n") {
 		if strings.HasPrefix(strings.ToLower(line), "content-length:") {
 			fmt.Sscanf(strings.TrimSpace(line[len("content-length:"):]), "%d", &wire)
 		}
